@@ -57,8 +57,24 @@ def gtext(g):
 
 def plan(tier, seed):
     L = 6 if tier == 'quick' else 7
-    return [(gi, lexer, ub, L if len(GRAMMARS[gi][4]) <= 3 else (L - 1 if len(GRAMMARS[gi][4]) <= 4 else L), tier) for gi in range(len(GRAMMARS))
-            for lexer in ('basic', 'contextual') for ub in (False, True)]
+    items = [(gi, lexer, ub, L if len(GRAMMARS[gi][4]) <= 3 else (L - 1 if len(GRAMMARS[gi][4]) <= 4 else L), tier) for gi in range(len(GRAMMARS))
+             for lexer in ('basic', 'contextual') for ub in (False, True)]
+    # the same with a lexer callback that changes the *length* of every A token (Token.update, as scan()'s documentation
+    # recommends): ranges and resume positions are source offsets, whatever the callback makes of the value
+    items += [(gi, lexer, ub, L - 1, tier, True) for gi in range(len(GRAMMARS)) if GRAMMARS[gi][0] in CB_GRAMMARS
+              for lexer in ('basic', 'contextual') for ub in (False, True)]
+    return items
+
+
+CB_GRAMMARS = ('seq', 'opt-tail', 'ws', 'leftrec', 'nullable')
+
+
+def _double(t):
+    return t.update(value=t.value + t.value)
+
+
+def _empty(t):
+    return t.update(value=t.value[:0])
 
 
 def bounds(tier, seed):
@@ -108,13 +124,16 @@ def real_scan(p, text, lo, hi, start, whole):
     return r
 
 
-def check(gi, lexer, use_bytes, L, tier, res, only=None):
+def check(gi, lexer, use_bytes, L, tier, cb=False, res=None, only=None):
     g = GRAMMARS[gi]
     name, body, tdefs, ign, alpha, starts = g
     text_g = gtext(g)
-    r = larkio.build(text_g, parser='lalr', lexer=lexer, start=starts, propagate_positions=True, use_bytes=use_bytes)
+    kw = {'lexer_callbacks': {'A': _double, 'B': _empty}} if cb else {}
+    r = larkio.build(text_g, parser='lalr', lexer=lexer, start=starts, propagate_positions=True, use_bytes=use_bytes, **kw)
     res['evals'] += 1
-    cfg = {'grammar_name': name, 'grammar': text_g, 'lexer': lexer, 'use_bytes': use_bytes, 'item': [gi, lexer, use_bytes, L, tier]}
+    cfg = {'grammar_name': name, 'grammar': text_g, 'lexer': lexer, 'use_bytes': use_bytes, 'item': [gi, lexer, use_bytes, L, tier, cb]}
+    if cb:
+        cfg['lexer_callbacks'] = 'A: value doubled, B: value emptied (Token.update)'
     if r[0] != 'ok':
         res['viol'].append({'kind': 'construction', 'cause': 'construction', 'case': cfg, 'expected': 'constructed', 'observed': repr(r[1])[:300]})
         return
@@ -162,12 +181,12 @@ def check(gi, lexer, use_bytes, L, tier, res, only=None):
 
 def work(item):
     res = new_res()
-    check(*item, res)
+    check(*item, res=res)
     res['counters'] = dict(res['counters'])
     return res
 
 
 def replay(case):
     res = new_res()
-    check(*case['item'], res, only=case)
+    check(*case['item'], res=res, only=case)
     return res['viol']
